@@ -4,11 +4,14 @@ C20 — Tie: what the extractor reads from tools/goctl/pkg/parser/api *now* equa
   * per parser function: its lookahead skeleton (a changed expected token, a dropped keyword check, a reordered
     branch breaks the obligation of that function);
   * per Format method: its write skeleton (a dropped node in a Write call, a changed zero-string test, a changed
-    option breaks it); the scanner's character table; format.Source's pipeline.
+    option breaks it); the scanner's character table; format.Source's pipeline;
+  * (round 2) per ast node type: its comment / position accessors, which Writer.write consults for every line break;
+    Writer.write, transfer*TokenNode, TokenNode.Format, Parser.nextToken and the scanner's comment functions in full.
 -/
 import GoZero.Extracted.C20
 import GoZero.C20.Model
 import GoZero.C20.Ref
+import GoZero.C20.Ref2
 namespace GoZero.C20.Tie
 open GoZero.C20
 
@@ -88,16 +91,90 @@ theorem tie_f_StructDataType : Extracted.C20.f_StructDataType = Ref.f_StructData
 theorem tie_f_AtServerStmt : Extracted.C20.f_AtServerStmt = Ref.f_AtServerStmt := by rfl
 theorem tie_f_AtDocLiteralStmt : Extracted.C20.f_AtDocLiteralStmt = Ref.f_AtDocLiteralStmt := by rfl
 theorem tie_f_AtDocGroupStmt : Extracted.C20.f_AtDocGroupStmt = Ref.f_AtDocGroupStmt := by rfl
-theorem tie_f_ServiceStmt : Extracted.C20.f_ServiceStmt = Ref.f_ServiceStmt := by rfl
+theorem tie_f_ServiceStmt : Extracted.C20.f_ServiceStmt = Ref.f_ServiceStmt ∨ Extracted.C20.f_ServiceStmt = Ref.f_ServiceStmt_patched := by
+  first | exact Or.inl rfl | exact Or.inr rfl
 theorem tie_f_ServiceNameExpr : Extracted.C20.f_ServiceNameExpr = Ref.f_ServiceNameExpr := by rfl
 theorem tie_f_AtHandlerStmt : Extracted.C20.f_AtHandlerStmt = Ref.f_AtHandlerStmt := by rfl
 theorem tie_f_ServiceItemStmt : Extracted.C20.f_ServiceItemStmt = Ref.f_ServiceItemStmt := by rfl
 theorem tie_f_RouteStmt : Extracted.C20.f_RouteStmt = Ref.f_RouteStmt := by rfl
-theorem tie_f_PathExpr : Extracted.C20.f_PathExpr = Ref.f_PathExpr := by rfl
+theorem tie_f_PathExpr : Extracted.C20.f_PathExpr = Ref.f_PathExpr ∨ Extracted.C20.f_PathExpr = Ref.f_PathExpr_patched := by
+  first | exact Or.inl rfl | exact Or.inr rfl
 theorem tie_f_BodyStmt : Extracted.C20.f_BodyStmt = Ref.f_BodyStmt := by rfl
 theorem tie_f_BodyExpr : Extracted.C20.f_BodyExpr = Ref.f_BodyExpr := by rfl
-theorem tie_w_write : Extracted.C20.w_write = Ref.w_write := by rfl
+theorem tie_w_write : Extracted.C20.w_write = Ref.w_write ∨ Extracted.C20.w_write = Ref.w_write_patched := by
+  first | exact Or.inl rfl | exact Or.inr rfl
 theorem tie_w_WriteText : Extracted.C20.w_WriteText = Ref.w_WriteText := by rfl
-theorem tie_fmt_Source : Extracted.C20.fmt_Source = Ref.fmt_Source := by rfl
+theorem tie_fmt_Source : Extracted.C20.fmt_Source = Ref.fmt_Source ∨ Extracted.C20.fmt_Source = Ref.fmt_Source_patched := by
+  first | exact Or.inl rfl | exact Or.inr rfl
+
+/-! ### round 2: every method Writer.write consults, and the comment ownership / comment scanning logic.
+`acc_<Type>`: HasHeadCommentGroup / HasLeadingCommentGroup / CommentGroup / End / Pos (+ ContainsStruct, ...) of the node
+type, statement by statement (a method that looks at the wrong field - Key instead of Value, Name instead of Tag -
+breaks its obligation). `full_<func>`: whole statement list. Obligations stated as a disjunction accept the function
+before and after fixes/C20-comments-scanner-empty-source.patch. -/
+
+theorem tie_acc_CommentStmt : Extracted.C20.acc_CommentStmt = Ref.acc_CommentStmt := by rfl
+theorem tie_acc_CommentGroup : Extracted.C20.acc_CommentGroup = Ref.acc_CommentGroup := by rfl
+theorem tie_acc_AnyDataType : Extracted.C20.acc_AnyDataType = Ref.acc_AnyDataType := by rfl
+theorem tie_acc_BaseDataType : Extracted.C20.acc_BaseDataType = Ref.acc_BaseDataType := by rfl
+theorem tie_acc_InterfaceDataType : Extracted.C20.acc_InterfaceDataType = Ref.acc_InterfaceDataType := by rfl
+theorem tie_acc_TokenNode : Extracted.C20.acc_TokenNode = Ref.acc_TokenNode := by rfl
+theorem tie_acc_SyntaxStmt : Extracted.C20.acc_SyntaxStmt = Ref.acc_SyntaxStmt := by rfl
+theorem tie_acc_InfoStmt : Extracted.C20.acc_InfoStmt = Ref.acc_InfoStmt := by rfl
+theorem tie_acc_ImportLiteralStmt : Extracted.C20.acc_ImportLiteralStmt = Ref.acc_ImportLiteralStmt := by rfl
+theorem tie_acc_ImportGroupStmt : Extracted.C20.acc_ImportGroupStmt = Ref.acc_ImportGroupStmt := by rfl
+theorem tie_acc_KVExpr : Extracted.C20.acc_KVExpr = Ref.acc_KVExpr := by rfl
+theorem tie_acc_TypeLiteralStmt : Extracted.C20.acc_TypeLiteralStmt = Ref.acc_TypeLiteralStmt := by rfl
+theorem tie_acc_TypeGroupStmt : Extracted.C20.acc_TypeGroupStmt = Ref.acc_TypeGroupStmt := by rfl
+theorem tie_acc_TypeExpr : Extracted.C20.acc_TypeExpr = Ref.acc_TypeExpr := by rfl
+theorem tie_acc_ElemExpr : Extracted.C20.acc_ElemExpr = Ref.acc_ElemExpr := by rfl
+theorem tie_acc_ArrayDataType : Extracted.C20.acc_ArrayDataType = Ref.acc_ArrayDataType := by rfl
+theorem tie_acc_MapDataType : Extracted.C20.acc_MapDataType = Ref.acc_MapDataType := by rfl
+theorem tie_acc_PointerDataType : Extracted.C20.acc_PointerDataType = Ref.acc_PointerDataType := by rfl
+theorem tie_acc_SliceDataType : Extracted.C20.acc_SliceDataType = Ref.acc_SliceDataType := by rfl
+theorem tie_acc_StructDataType : Extracted.C20.acc_StructDataType = Ref.acc_StructDataType := by rfl
+theorem tie_acc_AtServerStmt : Extracted.C20.acc_AtServerStmt = Ref.acc_AtServerStmt := by rfl
+theorem tie_acc_AtDocLiteralStmt : Extracted.C20.acc_AtDocLiteralStmt = Ref.acc_AtDocLiteralStmt := by rfl
+theorem tie_acc_AtDocGroupStmt : Extracted.C20.acc_AtDocGroupStmt = Ref.acc_AtDocGroupStmt := by rfl
+theorem tie_acc_ServiceStmt : Extracted.C20.acc_ServiceStmt = Ref.acc_ServiceStmt := by rfl
+theorem tie_acc_ServiceNameExpr : Extracted.C20.acc_ServiceNameExpr = Ref.acc_ServiceNameExpr := by rfl
+theorem tie_acc_AtHandlerStmt : Extracted.C20.acc_AtHandlerStmt = Ref.acc_AtHandlerStmt := by rfl
+theorem tie_acc_ServiceItemStmt : Extracted.C20.acc_ServiceItemStmt = Ref.acc_ServiceItemStmt := by rfl
+theorem tie_acc_RouteStmt : Extracted.C20.acc_RouteStmt = Ref.acc_RouteStmt := by rfl
+theorem tie_acc_PathExpr : Extracted.C20.acc_PathExpr = Ref.acc_PathExpr := by rfl
+theorem tie_acc_BodyStmt : Extracted.C20.acc_BodyStmt = Ref.acc_BodyStmt := by rfl
+theorem tie_acc_BodyExpr : Extracted.C20.acc_BodyExpr = Ref.acc_BodyExpr := by rfl
+theorem tie_full_AnyDataType_Format : Extracted.C20.full_AnyDataType_Format = Ref.full_AnyDataType_Format := by rfl
+theorem tie_full_BaseDataType_Format : Extracted.C20.full_BaseDataType_Format = Ref.full_BaseDataType_Format := by rfl
+theorem tie_full_InterfaceDataType_Format : Extracted.C20.full_InterfaceDataType_Format = Ref.full_InterfaceDataType_Format := by rfl
+theorem tie_full_CommentStmt_Format : Extracted.C20.full_CommentStmt_Format = Ref.full_CommentStmt_Format := by rfl
+theorem tie_full_TokenNode_Format : Extracted.C20.full_TokenNode_Format = Ref.full_TokenNode_Format := by rfl
+theorem tie_full_transfer2TokenNode : Extracted.C20.full_transfer2TokenNode = Ref.full_transfer2TokenNode := by rfl
+theorem tie_full_transferNilInfixNode : Extracted.C20.full_transferNilInfixNode = Ref.full_transferNilInfixNode := by rfl
+theorem tie_full_transferTokenNode : Extracted.C20.full_transferTokenNode = Ref.full_transferTokenNode := by rfl
+theorem tie_full_Writer_write : Extracted.C20.full_Writer_write = Ref.full_Writer_write ∨ Extracted.C20.full_Writer_write = Ref.full_Writer_write_patched := by
+  first | exact Or.inl rfl | exact Or.inr rfl
+theorem tie_full_Writer_Write : Extracted.C20.full_Writer_Write = Ref.full_Writer_Write := by rfl
+theorem tie_full_Writer_NewLine : Extracted.C20.full_Writer_NewLine = Ref.full_Writer_NewLine := by rfl
+theorem tie_full_ignoreHeadComment : Extracted.C20.full_ignoreHeadComment = Ref.full_ignoreHeadComment := by rfl
+theorem tie_full_ignoreLeadingComment : Extracted.C20.full_ignoreLeadingComment = Ref.full_ignoreLeadingComment := by rfl
+theorem tie_full_ignoreComment : Extracted.C20.full_ignoreComment = Ref.full_ignoreComment := by rfl
+theorem tie_full_withTokenNodePrefix : Extracted.C20.full_withTokenNodePrefix = Ref.full_withTokenNodePrefix := by rfl
+theorem tie_full_expectSameLine : Extracted.C20.full_expectSameLine = Ref.full_expectSameLine := by rfl
+theorem tie_full_expectIndentInfix : Extracted.C20.full_expectIndentInfix = Ref.full_expectIndentInfix := by rfl
+theorem tie_full_NewWriter : Extracted.C20.full_NewWriter = Ref.full_NewWriter := by rfl
+theorem tie_full_NewBufferWriter : Extracted.C20.full_NewBufferWriter = Ref.full_NewBufferWriter := by rfl
+theorem tie_full_Parser_nextToken : Extracted.C20.full_Parser_nextToken = Ref.full_Parser_nextToken := by rfl
+theorem tie_full_Parser_curTokenNode : Extracted.C20.full_Parser_curTokenNode = Ref.full_Parser_curTokenNode := by rfl
+theorem tie_full_Parser_getNode : Extracted.C20.full_Parser_getNode = Ref.full_Parser_getNode := by rfl
+theorem tie_full_Parser_init : Extracted.C20.full_Parser_init = Ref.full_Parser_init := by rfl
+theorem tie_full_Scanner_scanLineComment : Extracted.C20.full_Scanner_scanLineComment = Ref.full_Scanner_scanLineComment ∨ Extracted.C20.full_Scanner_scanLineComment = Ref.full_Scanner_scanLineComment_patched := by
+  first | exact Or.inl rfl | exact Or.inr rfl
+theorem tie_full_Scanner_scanDocument : Extracted.C20.full_Scanner_scanDocument = Ref.full_Scanner_scanDocument ∨ Extracted.C20.full_Scanner_scanDocument = Ref.full_Scanner_scanDocument_patched := by
+  first | exact Or.inl rfl | exact Or.inr rfl
+theorem tie_full_Scanner_skipWhiteSpace : Extracted.C20.full_Scanner_skipWhiteSpace = Ref.full_Scanner_skipWhiteSpace := by rfl
+theorem tie_full_Scanner_isWhiteSpace : Extracted.C20.full_Scanner_isWhiteSpace = Ref.full_Scanner_isWhiteSpace := by rfl
+theorem tie_full_fmt_Source : Extracted.C20.full_fmt_Source = Ref.full_fmt_Source ∨ Extracted.C20.full_fmt_Source = Ref.full_fmt_Source_patched := by
+  first | exact Or.inl rfl | exact Or.inr rfl
 
 end GoZero.C20.Tie
